@@ -103,7 +103,7 @@ CLAIMS = {
         technique="Lean 4 program-shape theorems + W1C chip lemma + event injection between SPI transfers",
         design="7 C07"),
     'C08': dict(
-        text="Proof for buffer, shadow-array, list and integer-arithmetic safety and for the callback length; sanitizer builds for the float casts and the loop bounds. "
+        text="Proof for buffer, shadow-array, list and integer-arithmetic safety, for the callback length and for the bound of the handler's loop; sanitizer builds for the float casts and the calibration poll. "
              "Theorem Sx.C08_memory_safe: for either build, EVERY packet-buffer size (a parameter of the model, not five samples), any "
              "initial chip (both register pages, FIFO and every over-the-air length byte are universally quantified answers), any history of "
              "API calls with any arguments (the two raw register calls with register numbers 0x00..0x70), handler invocations, environment events between any two transfers, any failing transfers and any "
@@ -116,7 +116,8 @@ CLAIMS = {
              "in the handle: Sx/Lemmas/RxLen.lean batch_post / loraGuard_post, every answer and failure), lifted to the "
              "interpreter by induction on the program tree (execG_safe, together with contract_api). That the delivered bytes are the bytes the chip stored for THAT packet is C03 "
              "(rx_invocation) and C05 (C05_rx_done), under their hypothesis that chip and handle agree on the packet format. Not proved (partial): float->integer conversions in range (C12 and "
-             "C14 prove it for their functions) and termination of the two chip-bounded loops (model fuel): these rest on the ASan/UBSan builds of the real driver at buffer sizes 16, 64, 255, 256 and 2047 "
+             "C14 prove it for their functions) and termination of the calibration poll of rx_calibrate, which waits for the chip to clear ImageCalRunning (the other loop, the byte-wise FIFO drain of the handler, is "
+             "proved to be bounded by the packet buffer for every answer of the chip: C08_handler_loop_bounded): these rest on the ASan/UBSan builds of the real driver at buffer sizes 16, 64, 255, 256 and 2047 "
              "with NaN/inf/huge arguments, hostile length bytes and retained chip configurations, and on the per-call SPI-transfer budget.",
         technique="Lean 4 structural safety theorem over all driver programs and all answers, for every buffer size + interpreter lift by induction + ASan/UBSan builds at five buffer sizes",
         design="7 C08"),
